@@ -96,14 +96,18 @@ HARNESSES = [
     dict(name="bp_frontend", file="bp_frontend.c", label="proved", fp=_FP_BP,
          loops=["get_new_block"], timeout=600, defines={"BP_BS": 16},
          cases=[dict(id="end_file", defines={"FE_ENQUEUE": 0}, tier="quick"),
-                dict(id="enqueue", defines={"FE_ENQUEUE": 1}, tier="quick"),
-                dict(id="append", defines={"FE_ENQUEUE": 2}, tier="quick", unwind=9,
-                     label="bounded(append size <= 40, block = 16)")]),
+                dict(id="enqueue", defines={"FE_ENQUEUE": 1}, tier="quick")]),
     # cbmc 6.11 attaches no loop contract to a condition-less "for (;;)" (the
     # clauses are silently dropped, caught by the driver's base/step count), so
     # the drain loop of sqfs_block_processor_sync is unwound: backlog <= 4
     dict(name="bp_finish", file="bp_finish.c", label="bounded(backlog <= 4)", fp=_FP_BP,
          unwind=7, timeout=600, cases=[dict(id="all", tier="quick")]),
+    dict(name="bp_append", file="bp_append.c",
+         instrument_flags=["--replace-calls", "get_new_block:c13_get_new_block",
+                           "--replace-calls", "enqueue_block:c13_enqueue_block"],
+         label="bounded(append size <= 2 blocks + 3, block = 8)", fp=_FP_BP,
+         defines={"BP_BS": 8}, unwind=9, timeout=280,
+         cases=[dict(id="all", tier="quick")]),
     dict(name="bp_fragment", file="bp_fragment.c",
          label="bounded(block index <= 11, payload <= 16)", fp=_FP_BP, unwind=6, timeout=900,
          cases=[dict(id="avail0", defines={"INODE_AVAIL": 0}, tier="quick"),
